@@ -164,6 +164,25 @@ pub fn run(ctx: &Ctx) -> i32 {
             check_case(ctx, st, tcs, Settings::with(REP | DIGIT | NWORD | CAP, s.min_rep, s.min_len));
         }
     });
+    // medium-sized inputs: many / long test cases, many distinct symbols, long repeats, deep prefix chains
+    {
+        let n = if ctx.thorough { 6000 } else { 400 };
+        let names = ["ab", "abc", "mixed", "meta", "astral"];
+        let als: Vec<Vec<String>> = names.iter().map(|a| gen::alphabet(a)).collect();
+        par_for(&ctx.run, n, |i, st| {
+            let mut rng = Rng::new(seed, 0x131_0000 + i as u64);
+            let tcs = gen::medium_family(&mut rng, &als[i % als.len()]);
+            let tcs: Vec<String> = tcs.into_iter().filter(|t| !t.is_empty()).collect();
+            if tcs.is_empty() {
+                return;
+            }
+            st.count("medium_sized_inputs");
+            let mut s = Settings::new(REP | if i % 4 == 0 { ESC | CAP } else { 0 });
+            s.min_rep = 1 + rng.below(8) as u32;
+            s.min_len = 1 + rng.below(4) as u32;
+            monotone(ctx, st, &tcs, s, &mut rng);
+        });
+    }
     let n = if ctx.thorough { 400_000 } else { 30_000 };
     let names = ["ab", "abc", "meta", "astral", "classes", "graph", "mixed", "case", "clusters"];
     let alphabets: Vec<(String, Vec<String>)> = names.iter().map(|a| (a.to_string(), gen::alphabet(a))).collect();
